@@ -518,7 +518,9 @@ func (o *ObjectSchema) applySubObjectDefaultValues(propertyID string, property *
 		data[k] = copyDefaultValue(v)
 	}
 	for subPropertyID, subProperty := range subObject.Properties() {
-		o.applySubObjectDefaultValues(subPropertyID, subProperty, data)
+		if _, hasDeclaredDefault := data[subPropertyID]; !hasDeclaredDefault {
+			o.applySubObjectDefaultValues(subPropertyID, subProperty, data)
+		}
 	}
 	if len(data) != 0 {
 		rawData[propertyID] = data
@@ -543,8 +545,7 @@ func (o *ObjectSchema) convertData(v reflect.Value) (map[string]any, error) {
 		if !isSet {
 			if defaultValue, ok := defaultValues[propertyID]; ok {
 				rawData[propertyID] = copyDefaultValue(defaultValue)
-			}
-			if o.fieldCache != nil {
+			} else if o.fieldCache != nil {
 				o.applySubObjectDefaultValues(propertyID, o.PropertiesValue[propertyID], rawData)
 			}
 		}
